@@ -290,41 +290,37 @@ def run(db, rep, feat, tier):
     ib = db.mir.get(INS)
     rep.anchor(ib is not None, INS)
     rep.analysed(INS)
-    r = rep.rule("R10", "K6", "ControlFlowGraph::insert returns (new index of the inserted graph's entry, new index of its exit): the "
-                 "variable that becomes component 0 is assigned only under a comparison with other.entry(), component 1 only under a "
-                 "comparison with other.exit()")
-    icfg = Cfg(ib)
-    itm = terms_of(db, INS, {})
-    for nm, acc in (("entry_index", "::entry"), ("exit_index", "::exit")):
-        l = local_of(ib, nm)
-        if l is None:
-            r.open("insert|%s" % nm, db.where(ib), "local %s not found" % nm)
-            continue
-        sites = [(bi_, s_) for bi_, b in enumerate(ib["blocks"]) for s_ in b["s"] if s_["d"] == [l] and not s_.get("rv", {}).get("variant", "").endswith("None")]
-        good = bool(sites)
-        for bi_, s_ in sites:
-            guarded = False
-            for j, b in enumerate(ib["blocks"]):
-                if b["t"]["k"] == "SwitchInt" and j != bi_ and icfg.dominates(j, bi_):
-                    ct = itm.operand(b["t"]["discr"])
-                    if isinstance(ct, tuple) and ct[0] == "bin" and ct[1] == "Eq" and from_call(ct, CFGT + acc):
-                        # the assignment must sit on the `equal` side: not reachable from the false target without passing the switch again
-                        false_t = [tg for v_, tg in b["t"]["targets"] if v_ == 0]
-                        if false_t and bi_ not in icfg.reachable(false_t[0], avoid=[j]):
-                            guarded = True
-            good = good and guarded
-        r.decide(good, "insert|%s" % nm, db.where(ib, sites[0][1]["l"]) if sites else db.where(ib),
-                 "%s is assigned without being guarded by `block.index() == other%s()`: the returned index is not the inserted graph's %s" % (
-                     nm, acc.replace("::", "."), acc[2:]))
-    ret = itm.local(0)
-    oks = [x for x in subterms(ret) if isinstance(x, tuple) and x and x[0] == "agg" and str(x[1]).endswith("Ok")]
-    good = False
-    for o in oks:
-        tp = o[2][0] if o[2] else None
-        if isinstance(tp, tuple) and tp[0] == "tuple" and len(tp[1]) == 2:
-            e_l, x_l = local_of(ib, "entry_index"), local_of(ib, "exit_index")
-            good = itm.local(e_l) in list(subterms(tp[1][0])) and itm.local(x_l) in list(subterms(tp[1][1]))
-    r.decide(good, "insert|returned_pair", db.where(ib), "insert must return (entry_index, exit_index) in this order")
+    r = rep.rule("R10", "K6", "ControlFlowGraph::insert returns (new index of the inserted graph's entry, new index of its exit): "
+                 "component 0 of the returned pair depends (data, or control selecting between its definitions) on other.entry() "
+                 "and not on other.exit(); component 1 the reverse")
+    # decided by dependence (data, and control only through branches that select between definitions): how the function
+    # finds the two indices -- a flag set in the copy loop, a lookup in the index map, a helper -- does not matter
+    import mirdep
+    from db import op_place
+
+    def marker(c, t):
+        return {CFGT + "::entry": "entry", CFGT + "::exit": "exit"}.get(c)
+
+    dep = mirdep.Dep(db, INS, marker)
+    pairs = []
+    for bi_, b in enumerate(ib["blocks"]):
+        for s_ in b["s"]:
+            rv = s_.get("rv", {})
+            if s_.get("d") == [0] and rv.get("k") == "Aggregate" and str(rv.get("variant", "")).endswith("::Ok") and rv.get("ops"):
+                tl = op_place(rv["ops"][0])
+                for s2 in b["s"]:
+                    if tl and s2.get("d") == [tl[0]] and s2.get("rv", {}).get("k") == "Aggregate" and s2["rv"].get("tuple") and len(s2["rv"]["ops"]) == 2:
+                        pairs.append((bi_, s2))
+    rep.anchor(len(pairs) >= 1, "the Ok((a, b)) results of ControlFlowGraph::insert")
+    for n_, (bi_, s2) in enumerate(pairs):
+        comps = []
+        for o in s2["rv"]["ops"]:
+            pl = op_place(o)
+            comps.append(dep.deps(pl[0], bi_) if pl else set())
+        for k_, (nm, other_nm) in enumerate((("entry", "exit"), ("exit", "entry"))):
+            r.decide(nm in comps[k_] and other_nm not in comps[k_], "insert|%s_index%s" % (nm, "" if n_ == 0 else "|%d" % n_), db.where(ib, s2["l"]),
+                     "component %d of the returned pair must be determined by other.%s() and not by other.%s(); it depends on %s" % (
+                         k_, nm, other_nm, sorted(comps[k_]) or "neither"))
 
     # ---------------------------------------------------------------- R11 MIPS delay slot room
     r = rep.rule("R11", "K9", "MIPS window end: in a full 64-byte window a branch is lifted only when at least 8 bytes (branch and delay "
